@@ -175,9 +175,13 @@ def symbolise_constants(ir_module, nconst, zvars, pre, lo, hi):
                     zvars.append((f"K{k}", z, "int"))
                     pre.append(z3.And(z >= lo, z <= hi))
                     syms[k] = SymNum(z)
-                c._ConstantValue__value = syms[k]
+                # the payload lives in a private attribute: find it by its content instead of by its (mangled) name
+                slots = [a for a, val in vars(c).items() if isinstance(val, int) and not isinstance(val, bool) and val == v]
+                if len(slots) != 1:
+                    raise core.HarnessError(f"could not locate the payload of a ConstantValue (attributes holding it: {slots})")
+                setattr(c, slots[0], syms[k])
                 if c.Value is not syms[k]:
-                    raise core.HarnessError("could not substitute a symbolic constant (ConstantValue layout changed)")
+                    raise core.HarnessError("could not substitute a symbolic constant (ConstantValue.Value does not return the payload)")
     return syms
 
 
